@@ -69,8 +69,9 @@ type Iface struct {
 }
 
 type Closure struct {
-	fn    *ssa.Function
-	binds []Value
+	fn     *ssa.Function
+	binds  []Value
+	native func(in *Interp, args []Value) Value // engine-provided function value
 }
 
 type mapEnt struct {
